@@ -192,6 +192,29 @@ PROPS = {
         "assumptions": _TRUST + ["fermion_to_qubit_mapping is used as data producer for the symmetry operators (encoding faithfulness is C03, "
                                  "not claimed); N, Sz, S^2 themselves are written out independently with openfermion arithmetic"],
     },
+    "C13": {
+        "world": "dsim.worlds.rdm.RdmWorld",
+        "tiers": {"quick": {"runs": 480, "chunk": 4, "run_cap_s": 900, "wall_cap_s": 700},
+                  "thorough": {"runs": 8000, "chunk": 8, "run_cap_s": 1500, "wall_cap_s": 2700}},
+        "rule": "one evaluation = one simulated run of 5-18 steps over one molecule (closed/open shell, with and without frozen "
+                "orbitals) and a pool of long-lived solvers on it (FCI, CCSD, MP2 through PySCF; VQESolver with UCCSD / UpCCGSD / HEA "
+                "under JW/BK/scBK/JKMN, exact or with a shot budget drawn through the RNG seam): simulate, get_rdm (spin-summed "
+                "and spin-resolved), get_rdm(resample=True), padding with the frozen orbitals, out-of-protocol calls (get_rdm "
+                "before simulate, resample before get_rdm) and in-place modification of returned arrays by the caller. After every "
+                "get_rdm: energy_from_rdms against the solver's energy (classical) / <psi|H|psi> on the reference simulation of "
+                "the solver's circuit (variational; Bernstein bound with shots), Hermiticity, trace = electron count / <N> of the "
+                "state, same answer when asked again; after every pad: total electron count, same energy with full-space PySCF "
+                "integrals, arguments unchanged. Distinct = (step kind, solver kind, molecule, shots) tuples; non-trivial = run "
+                "with >=3 steps of >=2 kinds or >=1 refusal.",
+        "probes": ["C13.returned_arrays_modified_by_caller", "C13.get_rdm_again_after_caller_modified_result", "C13.resample_after_get_rdm",
+                   "C13.spin_resolved_form", "C13.padding_with_frozen_orbitals"],
+        "components_real": ["FCISolver / CCSDSolver / MP2Solver (PySCF back ends) incl. their simulate-before-get_rdm protocol, VQESolver.get_rdm "
+                            "(exact and sampled, resample route), SecondQuantizedMolecule.energy_from_rdms, pad_rdms_with_frozen_orbitals_restricted, "
+                            "cirq backend, fermion_to_qubit_mapping"],
+        "components_stub": [],
+        "assumptions": _TRUST + ["fermion-to-qubit encodings are trusted here (C03), as are PySCF's integrals and solvers",
+                                 "unrestricted (UHF) references and the Psi4 back ends are not exercised"],
+    },
     "C19": {
         "world": "dsim.worlds.noise.NoiseWorld",
         "tiers": {"quick": {"runs": 640, "chunk": 4, "run_cap_s": 900, "wall_cap_s": 600},
